@@ -147,7 +147,7 @@ pub fn c18(ctx: &mut Ctx, acc: &mut Acc) -> i32 {
 
     if mode != "baseline" {
         // ---- (b) steady state: shared values, mixed types, all threads at once
-        let per_thread = ctx.n(2_000, 100_000);
+        let per_thread = ctx.n(10_000, 200_000);
         let pool: Vec<(&dyn Subject, Ty, Val, Val, Option<Vec<u8>>)> = ids
             .iter()
             .take(400)
@@ -183,7 +183,7 @@ pub fn c18(ctx: &mut Ctx, acc: &mut Acc) -> i32 {
 
         acc.max("through_steady_state_ms", clock.elapsed().as_millis() as u64);
         // ---- (c) call histories in one thread
-        let histories = ctx.n(300, 10_000);
+        let histories = ctx.n(1000, 20_000);
         let all: Vec<&dyn Subject> = ids.iter().map(|id| ctx.reg.get(id).unwrap()).collect();
         for h in 0..histories {
             if all.is_empty() {
@@ -195,7 +195,22 @@ pub fn c18(ctx: &mut Ctx, acc: &mut Acc) -> i32 {
                 let s = *rng.pick(&all);
                 let ty = s.ty();
                 let idx = rng.below(1 << 20);
-                match rng.below(4) {
+                match rng.below(5) {
+                    4 => {
+                        // an encode that may fail half-way (astral character, transient constructor deep inside a value):
+                        // nothing of it may survive into later calls
+                        let hostile = refmodel::GenCtx { encodable: false, transient_ctors: true, tz_names: ctx.gen.tz_names.clone(), ..refmodel::GenCtx::default() };
+                        let v = gen_val(&ty, &mut rng, &hostile);
+                        let x = s.make(&v);
+                        let got = enc(s, x.as_ref(), Sink::ToByteVec);
+                        calls += 1;
+                        let want_err = ref_encode(&ty, &v).is_err();
+                        match (&got, want_err) {
+                            (Call::Err(_), true) => acc.count("failing_encodes_in_histories"),
+                            (Call::Ok(_), false) => {}
+                            (other, _) => bad.lock().unwrap().push(Bad { what: format!("call history: hostile encode gave {} (reference expects {})", other.class(), if want_err { "an error" } else { "bytes" }), subject: s.id().to_string(), value: v.render(300) }),
+                        }
+                    }
                     0 => {
                         // a failing call in between: garbage input must not leave anything behind
                         let garbage_len = rng.below(12) as usize;
